@@ -132,6 +132,43 @@ theorem track_modes_match_documented :
     Ovni.Spec.trackModes.all matchesTrackDoc = true ∧
     Ovni.Emu.allSpecs.all (fun s => Ovni.Spec.trackModes.any (fun d => d.1 == s.char)) = true := by decide
 
+/-! ### a thread the kernel switched out -/
+
+theorem stateGuard_out (m : ModelSpec) (t : Thread) (ho : t.outOfCpu = true) (hm : m.checkOutOfCpu = true) :
+    stateGuard m t = .error .state := by
+  unfold stateGuard
+  by_cases h1 : (m.stateReq = 1 && !t.state.isRunning) = true
+  · simp [h1]; rfl
+  · by_cases h2 : (m.stateReq = 2 && !t.state.isActive) = true
+    · simp [h1, h2]; rfl
+    · simp [h1, h2, ho, hm]; rfl
+
+/-- **No subsystem event from a switched-out thread.**  For every model whose `process_ev` tests
+    `is_out_of_cpu` (regenerated fact `checkOutOfCpu`), every emulator state, every thread that the
+    kernel model has marked out of the CPU — whatever thread state it is in: running, cooling,
+    warming — and every event code, the table handler refuses the event. -/
+theorem out_of_cpu_rejects (e : Emu) (ti : Nat) (m : ModelSpec) (c v : Nat) (t : Thread)
+    (ht : e.threads[ti]? = some t) (ho : t.outOfCpu = true) (hm : m.checkOutOfCpu = true) :
+    tableEvent e ti m c v = .error .state := by
+  unfold tableEvent
+  simp only [ht]
+  simp [stateGuard_out m t ho hm, bind, Except.bind]
+
+/-- … the same for every event of the ovni model (thread, affinity, burst, flush, mark events) -/
+theorem out_of_cpu_rejects_ovni (e : Emu) (ti : Nat) (c v : Nat) (payload : List Nat) (t : Thread)
+    (hook : Emu → Nat → Nat → List Nat → Except Err Emu)
+    (ht : e.threads[ti]? = some t) (ho : t.outOfCpu = true) :
+    ovniEvent e ti c v payload hook = .error .state := by
+  unfold ovniEvent
+  simp [ht, ho, bind, Except.bind]
+  rfl
+
+/-- which models test the flag, and which events set and clear it (regenerated handler facts):
+    nOS-V does, the kernel's `KCO` sets it and `KCI` clears it — unconditionally, not only for a
+    running thread (seeded change C08-8) -/
+theorem out_of_cpu_facts :
+    specNosv.checkOutOfCpu = true ∧ specKernel.outOfCpu = [(67, 79, true), (67, 73, false)] := by decide
+
 /-! ### Non-vacuity -/
 
 example : Rep ({ isStack := true } : Chan) [] := ⟨rfl, rfl, rfl, rfl, rfl⟩
